@@ -49,7 +49,7 @@ def race_build(wait=True, proc=None):
 
 def recipe(c: Check):
     from vlib import WORK
-    c.build(["Properties/C16.vo", "Corr/C16.vo"], harness=["c16"], units=["t1", "t4", "t8a"])
+    c.build(["Properties/C16.vo", "Corr/C16.vo"], harness=["c16"], units=["t1", "t4", "t8a", "t11send"])
     c.obligations("C16")
     rb = race_build() if c.harness_ok else None
     locks = os.path.join(V, "coq/gen/GenLocks.v")
